@@ -73,7 +73,7 @@ def run(res):
             structs = rng.sample(structs, 60)
         Fl = V.fair_lists(n, ordered=(n < 3))
         if n == 3:
-            Fl = rng.sample(Fl, 20 if quick else 200)
+            Fl = rng.sample(Fl, min(len(Fl), 20 if quick else 200))
         for K in structs:
             for order in itertools.permutations(range(n)):
                 for F in Fl:
